@@ -10,7 +10,7 @@ if ! (cd $T/tree && git apply --whitespace=nowarn "$PATCH" 2>$T/apply.err); then
 export GOFLAGS=-mod=mod GOPROXY=off GOSUMDB=off GOTOOLCHAIN=local; unset GOWORK
 if ! (cd $T/tree && go build ./... 2>$T/build.err); then echo "BUILD FAILS: $(head -3 $T/build.err)"; exit 4; fi
 for p in $PROPS; do
-  ( /verif/bin/bornocheck -property $p -repo $T/tree -scratch > $T/$p.out 2>&1; echo $? > $T/$p.rc ) &
+  ( TMPDIR=$T ${BIN:-/verif/bin/bornocheck} -property $p -repo $T/tree -scratch > $T/$p.out 2>&1; echo $? > $T/$p.rc ) &
 done
 wait
 n=0
